@@ -1016,6 +1016,12 @@ func parseAssigns(text, where string) ([]AssignItem, error) {
 	for _, part := range splitTop(text, ',') {
 		part = strings.TrimSpace(part)
 		switch {
+		case strings.HasPrefix(part, "reach(") && strings.HasSuffix(part, ")"):
+			e, err := parseExprString(part[6:len(part)-1], where)
+			if err != nil {
+				return nil, err
+			}
+			items = append(items, AssignItem{Kind: "reach", X: e})
 		case strings.HasPrefix(part, "callback(") && strings.HasSuffix(part, ")"):
 			items = append(items, AssignItem{Kind: "callback", Name: strings.TrimSpace(part[9 : len(part)-1])})
 		case strings.HasPrefix(part, "all(") && strings.HasSuffix(part, ")"):
